@@ -17,7 +17,7 @@ RULE = ("MODE SELECT 6/10 x 4 pages x every field over its alphabet (k deviation
         "values x 1-2 pages per list; PERSISTENT RESERVE OUT x service actions 0-8 x 64-bit key alphabets x flag products x 0-3 TransportIDs of 6 "
         "kinds x iSCSI name lengths 1..26 x format 00b/01b, REGISTER AND MOVE with/without TransportID; EXTENDED COPY LID1 and LID4 x header "
         "fields x 0-3 identification CSCD descriptors (NAA 5/6, EUI-64 8/12/16, T10 vendor id; block/tape/processor device types) x 0-3 segment "
-        "descriptors of each implemented type {00,01,02,0B,0C,0D} x inline data {0,1,5 bytes}. Non-trivial = any non-default value or "
+        "descriptors of each implemented type {00,01,02,0B,0C,0D} x inline data {0,1,5 bytes}; one caller dictionary re-used for two commands of every ordered pair of segment kinds. Non-trivial = any non-default value or "
         "descriptor; distinct = distinct (command, dictionary).")
 ASSUMPTIONS = [
     "oracle: vf/spec/paramlists.py decoders (positions of SPC-4 6.3/6.14/7.5/7.6.4) over vf/spec/bits.py",
@@ -181,6 +181,32 @@ def run_case(case, obs=None):
         if d["service_action"] != (0 if ver == 4 else 1):
             out.append(("xcopy%d/service_action" % ver, "%s: service action %d" % (where, d["service_action"])))
         return out + pll_check(name, cmd, where)
+    if kind == "xreuse":
+        # the caller re-uses one segment dictionary for two commands of different descriptor kinds
+        _, ver, code_a, code_b = case
+        name = "ExtendedCopy%d" % ver
+        src, dst = ("source_target_descriptor_id", "destination_target_descriptor_id") if ver == 4 else ("source_cscd_descriptor_id", "destination_cscd_descriptor_id")
+        seg = {src: 1, dst: 2, "block_device_number_of_blocks": 9, "cat": 1}
+        out = []
+        for step, code in enumerate((code_a, code_b)):
+            seg["descriptor_type_code"] = code
+            where = "%s with one segment dictionary re-used, kinds %#04x then %#04x, use %d" % (name, code_a, code_b, step)
+            try:
+                cmd = CS.get_class(name)(opcode_of(name), segment_descriptor_list=[seg])
+            except Exception as e:   # noqa: BLE001
+                return out + [("xcopy%d/reuse/raises" % ver, "%s raised %s: %s" % (where, type(e).__name__, e))]
+            buf = bytes(cmd.dataout)
+            if obs is not None and step == 1:
+                obs.append(buf)
+                obs.append(cmd)
+            h, gc, gs, gi, problems = P.xcopy(buf, ver == 5)
+            for p in problems:
+                out.append(("xcopy%d/reuse/length" % ver, "%s: %s" % (where, p)))
+            if len(gs) != 1 or gs[0]["descriptor_type_code"] != code or gs[0]["source"] != 1 or gs[0]["destination"] != 2 or \
+                    gs[0]["block_device_number_of_blocks"] != 9:
+                out.append(("xcopy%d/reuse/fields" % ver, "%s: decoded %r" % (where, gs)))
+            out += pll_check(name, cmd, where)
+        return out
     raise ValueError(kind)
 
 
@@ -228,6 +254,7 @@ def cscd_of(i, ver):
     return d, want
 
 
+SEG_SIZE_CODES = (0x00, 0x01, 0x02, 0x0B, 0x0C, 0x0D)
 SEGS = [
     (0x00, "bs"), (0x01, "bs"), (0x02, "bb"), (0x0B, "bs"), (0x0C, "bs"), (0x0D, "bb"),
 ]
@@ -339,6 +366,9 @@ def gen(part, tier):
                 yield ["xcopy", ver, {}, [0], list(combo), 0]
         yield ["xcopy", ver, {}, [], [], 0]
         yield ["xcopy", ver, {}, [], [], 5]
+        for a in SEG_SIZE_CODES:
+            for b2 in SEG_SIZE_CODES:
+                yield ["xreuse", ver, a, b2]
 
 
 NCHUNK = 4
@@ -348,6 +378,7 @@ def run_partition(part, tier, seed):
     acc = Acc(seed)
     part, chunk = part
     prev = None
+    anchor = None
     for n, case in enumerate(gen(part, tier)):
         if n % NCHUNK != chunk:
             continue
@@ -365,4 +396,17 @@ def run_partition(part, tier, seed):
         for kk, w in v:
             acc.violation(kk, w, case)
         acc.outcome((obs[0] if obs else None, tuple(x for x, _ in v)))
+        # anchor: the first case of the partition is built again every 150 cases and must give the very same bytes (nothing a later
+        # build leaves behind - a cache, a grown table, a shared buffer - may change what the same inputs produce)
+        if anchor is None and obs and not v:
+            anchor = (case, obs[0])
+        elif anchor is not None and n % 150 == 0:
+            o2 = []
+            try:
+                v2 = run_case(anchor[0], o2)
+            except Exception as e:   # noqa: BLE001
+                v2, o2 = [("anchor", str(e))], [None]
+            if v2 or not o2 or o2[0] != anchor[1]:
+                acc.violation("%s/depends_on_history" % anchor[0][0], "building %r again after %d other builds gives a different result (%s)"
+                              % (anchor[0], n, v2[:1] or "bytes differ"), anchor[0])
     return acc
